@@ -116,21 +116,28 @@ def check_step(acc, rule_ids, t, th, w):
 
 
 def check_sim(acc, which, rule_ids, late=0):
-    """late: the last `late` rules are added to the control only after a first run of 4 instants (then the run continues)."""
+    """late: the last `late` rules are added to the control only after a first run of 4 instants (then the run continues).
+    The proposals at every instant are taken by a probe rule that asks every installed rule itself."""
     spec = base_spec(which)
     case = {'kind': 'sim', 'model': which, 'rules': list(rule_ids), 'late': late}
     m = sim.Model(spec)
     log = []
     ctl = PWMControl(powertrain=m.pt)
+    installed = []
+    ctl.add_rule(rh.Probe(installed, m, log))
     early = len(rule_ids) - late
-    for j, rid in enumerate(rule_ids[:early]):
-        ctl.add_rule(rh.Proxy(rh.make_rule(rid, m), m, log, j))
+    for rid in rule_ids[:early]:
+        r = rh.make_rule(rid, m)
+        installed.append(r)
+        ctl.add_rule(r)
     err = None
     try:
         if late:
             m.run([0.125, 'sec'], [0.375, 'sec'], control=ctl)
-            for j, rid in enumerate(rule_ids[early:], early):
-                ctl.add_rule(rh.Proxy(rh.make_rule(rid, m), m, log, j))
+            for rid in rule_ids[early:]:
+                r = rh.make_rule(rid, m)
+                installed.append(r)
+                ctl.add_rule(r)
             m.run([0.125, 'sec'], [0.5, 'sec'], control=ctl)
         else:
             m.run([0.125, 'sec'], [0.875, 'sec'], control=ctl)
@@ -140,21 +147,20 @@ def check_sim(acc, which, rule_ids, late=0):
     pwm = m.elements[0].time_variables.get('pwm', [])
     nrec = len(pwm)
     ntime = len(m.pt.time)
-    byk = {}
-    for k, tag, v in log:
-        byk.setdefault(k, {})[tag] = v
+    byk = {k: props for k, props in log}
     kinds_all = '+'.join(sorted(set(rh.BUILTIN_KIND[r] for r in rule_ids))) or 'none'
     raised_at = None
     for k in range(ntime):
-        props = byk.get(k, {})
         acc.transitions += 1
-        expected_rules = len(rule_ids) if (not late or k >= 4) else early
-        if len(props) != expected_rules and not (err and k == ntime - 1):
-            acc.violation('C14/sim/rules-not-consulted-once', 'every rule consulted exactly once per instant', case,
-                          {'instant': k, 'consulted': len(props), 'rules': expected_rules})
+        if k not in byk:
+            if err and k == ntime - 1:
+                break
+            acc.violation('C14/sim/rules-not-consulted', 'the control consults its rules at every instant (its first rule was not asked at this one)', case, {'instant': k})
             return
-        live = [v for v in props.values() if v is not None]
-        acc.state((which, tuple(rule_ids), late, k, tuple(str(v) for v in props.values())))
+        props = byk[k]
+        ids_k = rule_ids[:len(props)]
+        live = [v for v in props if v is not None]
+        acc.state((which, tuple(rule_ids), late, k, tuple(str(v) for v in props)))
         if any(isinstance(v, tuple) for v in live):
             raised_at = k
             break
@@ -162,7 +168,7 @@ def check_sim(acc, which, rule_ids, late=0):
             raised_at = k
             if not (err and err[0] == 'ValueError' and nrec == k):
                 acc.violation('C14/sim/conflict-continued', 'two applicable rules: the run raises ValueError at that instant and records nothing after it', case,
-                              {'instant': k, 'error': err, 'recorded': nrec, 'proposals': [str(v) for v in props.values()]})
+                              {'instant': k, 'error': err, 'recorded': nrec, 'proposals': [str(v) for v in props]})
             break
         if k >= nrec:
             break
@@ -170,7 +176,7 @@ def check_sim(acc, which, rule_ids, late=0):
             p = live[0]
             if not rh.is_number(p) or (isinstance(p, float) and math.isnan(p)):
                 if not rh.in_range(pwm[k]):
-                    kinds = '+'.join(sorted(set(rh.BUILTIN_KIND[rule_ids[t]] for t, v in props.items() if v is not None)))
+                    kinds = '+'.join(sorted(set(rh.BUILTIN_KIND[r] for r, v in zip(ids_k, props) if v is not None)))
                     acc.violation(f'C14/duty-not-in-range/nan-proposal/{kinds}', 'every recorded duty cycle is a number in [-1, 1]', case,
                                   {'instant': k, 'pwm': str(pwm[k]), 'proposal': str(p)})
                     break
@@ -180,10 +186,10 @@ def check_sim(acc, which, rule_ids, late=0):
             exp = 1
         if pwm[k] != exp:
             acc.violation(f'C14/sim/arbitration/{kinds_all}', 'recorded duty = clip(single proposal) or 1', case,
-                          {'instant': k, 'pwm': pwm[k], 'expected': exp})
+                          {'instant': k, 'pwm': pwm[k], 'expected': exp, 'proposals': [str(v) for v in props]})
             break
     for k, v in enumerate(pwm):
-        nan_prop = any(isinstance(x, float) and math.isnan(x) for x in byk.get(k, {}).values())
+        nan_prop = any(isinstance(x, float) and math.isnan(x) for x in byk.get(k, []))
         if not rh.in_range(v) and raised_at is None and not nan_prop:
             acc.violation(f'C14/sim/recorded-duty-not-in-range/{kinds_all}', 'every recorded duty cycle lies in [-1,1]', case,
                           {'instant': k, 'pwm': str(v)})
